@@ -1340,19 +1340,29 @@ finally:
 """
 
 
-def run_cli_hooked(argv, nw=0, timeout=600):
+def run_cli_hooked(argv, nw=0, timeout=150):
     """osaca CLI in a fresh interpreter; cpu_count patched to nw (0 = unchanged); the KernelDG
     instances made by `inspect` are observed from outside.  -> (rc, stdout, stderr, hook dict)"""
     import subprocess
 
-    p = subprocess.run([env.PY, "-B", "-c", HOOK, str(nw)] + list(argv), env=env.child_env(), cwd="/",
-                       stdout=subprocess.PIPE, stderr=subprocess.PIPE, timeout=timeout)
-    err = p.stderr.decode("utf-8", "replace")
+    p = subprocess.Popen([env.PY, "-B", "-c", HOOK, str(nw)] + list(argv), env=env.child_env(), cwd="/",
+                         stdout=subprocess.PIPE, stderr=subprocess.PIPE, start_new_session=True)
+    try:
+        so, se = p.communicate(timeout=timeout)
+    except subprocess.TimeoutExpired:
+        try:
+            os.killpg(p.pid, signal.SIGKILL)      # the CLI and every process it started
+        except OSError:
+            pass
+        so, se = p.communicate()
+        return -999, so.decode("utf-8", "replace"), "no return within %s s (killed)" % timeout, None
+    p.stdout_text = so
+    err = se.decode("utf-8", "replace")
     hook = None
     for line in err.splitlines():
         if line.startswith("@@LCDS "):
             hook = json.loads(line[7:])
-    return p.returncode, p.stdout.decode("utf-8", "replace"), err, hook
+    return p.returncode, so.decode("utf-8", "replace"), err, hook
 
 
 LCD_WARNING = "WARNING: LCD analysis timed out"
@@ -1373,10 +1383,128 @@ def padded_file(src, dst, comment, total):
     return dst
 
 
-def pool_map(fn, items, procs):
-    """fork pool whose workers may have children themselves (multiprocessing.Pool workers are daemonic)"""
-    import concurrent.futures
+def _guarded(fn, item, conn):
+    os.setsid()          # own process group: a hung job is killed together with everything it started
+    try:
+        conn.send(fn(item))
+    except BaseException as e:  # noqa
+        import traceback
+
+        conn.send({"name": item.get("name", "?") if isinstance(item, dict) else "?", "cases": [], "meta": {},
+                   "fails": [], "walls": [], "notes": {},
+                   "machinery": "%s: %s\n%s" % (type(e).__name__, e, traceback.format_exc())})
+    finally:
+        conn.close()
+
+
+def pool_map(fn, items, procs, deadline=240.0):
+    """Run fn(item) for every item in forked, NON-daemonic processes (they start processes themselves),
+    at most `procs` at a time, each in its own process group with a deadline: a job that does not
+    return (e.g. the code under test waits forever for a worker) is killed with its whole group and
+    yields {"hang": True, "item": item}."""
     import multiprocessing
 
-    with concurrent.futures.ProcessPoolExecutor(max_workers=procs, mp_context=multiprocessing.get_context("fork")) as ex:
-        return list(ex.map(fn, items))
+    ctx = multiprocessing.get_context("fork")
+    pending = list(enumerate(items))
+    running = {}
+    results = [None] * len(items)
+    while pending or running:
+        while pending and len(running) < procs:
+            i, it = pending.pop(0)
+            rx, tx = ctx.Pipe(duplex=False)
+            p = ctx.Process(target=_guarded, args=(fn, it, tx))
+            p.start()
+            tx.close()
+            running[i] = (p, rx, _time.time(), it)
+        for i in list(running):
+            p, rx, t0, it = running[i]
+            if rx.poll(0.05):
+                try:
+                    results[i] = rx.recv()
+                except EOFError:
+                    results[i] = {"hang": True, "item": it, "died": True, "name": it.get("name", "?")}
+                p.join(10)
+                del running[i]
+            elif not p.is_alive() and not rx.poll(0.2):
+                results[i] = {"hang": True, "item": it, "died": True, "name": it.get("name", "?")}
+                del running[i]
+            elif _time.time() - t0 > deadline:
+                try:
+                    os.killpg(p.pid, signal.SIGKILL)
+                except OSError:
+                    pass
+                p.join(10)
+                results[i] = {"hang": True, "item": it, "after_s": round(_time.time() - t0, 1), "name": it.get("name", "?")}
+                del running[i]
+    return results
+
+
+# ------------------------------------------------------------------------------------------
+# ./check Cxx --replay FILE
+# ------------------------------------------------------------------------------------------
+def replay_file(path, pid):
+    """Re-executes the recorded case on the CURRENT tree: virtual-process cases are re-driven action
+    by action (deterministic); real cases are run again with the same kernel / worker count /
+    timeout; other records (wall time, CLI) are printed.  Exit code 1 iff the violation shows again."""
+    from harness import tlc, vproc
+
+    with open(path) as f:
+        rec = json.load(f)
+    print("replaying %s" % rec["signature"])
+    print("  %s" % rec["what"])
+    body = rec.get("case") or {}
+    case, meta, source = body.get("case"), body.get("meta") or {}, body.get("source")
+    trace_cfg = body.get("trace_cfg", "Trace_LCDSearch")
+    if not case or "text" not in meta:
+        print(json.dumps(body, indent=1, default=str)[:6000])
+        return 0
+    tools = tools_for(meta.get("arch", "syn"))
+    mm, sem, parser = tools
+    kernel = parser.parse_file(meta["text"])
+    sem.add_semantics(kernel)
+    pos = positions(kernel)
+    if source == "vproc":
+        seq = sequential_result(kernel, tools)
+        with vproc.Replay(kernel, tools, case["nw"], case["to"]) as rp:
+            for a in meta["actions"]:
+                d = rp.act(tuple(a))
+                print("  %-14s -> %s%s" % (a, rp.state(pos), "   DIVERGENCE: " + d if d else ""))
+                if d:
+                    break
+            if rp.c.state != "finished":
+                rp.freerun()
+            if rp.c.error is not None:
+                print("  exception:", repr(rp.c.error))
+                return 1
+            res, defects = project_lcds(rp.dg.get_loopcarried_dependencies(), kernel)
+            lst = rp.f.lists[0]
+            events = project_events(rp.s.raw, rp.TIMEOUT, pos, batches=[[b[0], b[1]] for b in lst.batches if b[1] > 0], ordered=True)
+            events.append({"e": "return", "result": res, "timed_out": bool(rp.dg.timed_out)})
+            new = dict(case)
+            new["events"] = events
+            new["obs"] = {"result": res, "seq": seq["result"], "timed_out": bool(rp.dg.timed_out),
+                          "order": same_order(rp.dg.get_loopcarried_dependencies(), seq["order"]),
+                          "killed": [p.w for p in rp.f.procs if p.killed], "orphans": len(rp.orphans()),
+                          "dups": len(defects) + len(seq["defects"])}
+    else:
+        ids = CycleIds()
+        seq = sequential_result(kernel, tools)
+        ref = run_real(kernel, tools, 4, -1, tag="replay-ref")
+        table = reference_table(ref, kernel, ids)
+        o = run_real(kernel, tools, case["nw"], meta.get("timeout", -1), delays=Delays(rec.get("seed", 0), p=0.35, dmax=0.02), tag="replay")
+        if o["error"]:
+            print("  exception:", o["error"])
+            return 1
+        new = real_case(case["id"], o, kernel, table, ids, seq)
+        print("  wall %.2fs timed_out=%s exit codes %s left %s" % (o["wall"], o["timed_out"], o["exitcodes"], o["left"]))
+    print("  observed: timed_out=%s killed=%s %d LCDs" % (new["obs"]["timed_out"], new["obs"]["killed"], len(new["obs"]["result"])))
+    rejects, r = tlc.batch_validate("Trace_LCDSearch", trace_cfg, [new], tag="lcds-replay")
+    for x in rejects:
+        print("  REJECT", x[1], x[2])
+    cleanup_synthetic()
+    mine = [x for x in rejects if x[1].startswith("A:") and not (pid == "C16" and x[1] in C19_ONLY)]
+    if mine:
+        print("VIOLATION property=%s replay=%s" % (pid, path))
+        return 1
+    print("not reproduced on the current tree")
+    return 0
